@@ -1,79 +1,127 @@
 package c20
 
 import (
+	"regexp"
 	"strings"
+	"sync"
 	"unicode"
 
 	"wzverif/internal/kit"
 )
 
-// kf is one open finding: an input class (predicate on the case) and the clauses it may absorb.
-type kf struct {
-	id      string
+// Two kinds of masks.
+//
+//   - class part: the defect destroys the structure of the Markdown for a whole input class (hostile text,
+//     delimiter placement, lazy list continuation ...). A failure of one of the listed clauses on a case of
+//     the class is attributed wholesale.
+//   - exact part: the defect has one predictable effect on otherwise well-behaved documents (tables come
+//     last, a list item comes back as a "• " paragraph, the first table row comes back bold ...). run()
+//     applies the predicted effect of the open findings whose class the case is in and compares again; only
+//     if the observation equals the prediction exactly is the failure tagged with the finding's id, and only
+//     a tagged failure is attributed. Any other deviation in such a case stays a violation.
+type part struct {
 	clauses string // space separated clause ids
-	desc    string
 	pred    func(c Case) bool
+	exact   bool
 }
 
+type kf struct {
+	id    string
+	desc  string
+	parts []part
+}
+
+const (
+	idOrder        = "KF-C20-order"
+	idNoEscape     = "KF-C20-no-escape"
+	idEscapeRT     = "KF-C20-escape-roundtrip"
+	idEdgeBlank    = "KF-C20-edge-blank"
+	idDelimContext = "KF-C20-delimiter-context"
+	idCodeCombined = "KF-C20-code-combined"
+	idListNoBlank  = "KF-C20-list-no-blank"
+	idSimpleTable  = "KF-C20-simple-table"
+	idMetadata     = "KF-C20-metadata"
+	idListReimport = "KF-C20-list-reimport"
+	idCodeNewline  = "KF-C20-codeblock-newline"
+	idEmptyPara    = "KF-C20-empty-paragraph"
+	idTableHeader  = "KF-C20-table-header"
+	idFlatten      = "KF-C20-reimport-flatten"
+	idHeadingDeep  = "KF-C20-heading-deep"
+)
+
+const allE = "C20.E1 C20.E2 C20.E3 C20.E4 C20.E5"
+
 var kfs = []kf{
-	{"KF-C20-order", "C20.E1 C20.E4",
-		"the exporter writes all paragraphs before all tables: a table that precedes a later text block in the body comes out after it",
-		tableBeforeLaterBlock},
-	{"KF-C20-no-escape", "C20.E1 C20.E2 C20.E3 C20.E4 C20.E5",
-		"run/cell text is written without escaping: text containing Markdown syntax (emphasis/code/strike delimiters, brackets, entities, '$', '|' in cells, block markers at a line start) changes structure or text",
-		hasSyntaxText},
-	{"KF-C20-edge-blank", "C20.E1 C20.E2 C20.E3 C20.E4 C20.E5",
-		"emphasis delimiters are placed around the blanks at the edges of a formatted run (or bold-styled heading): '** x **' is not emphasis in CommonMark",
-		hasEdgeBlankFormatted},
-	{"KF-C20-adjacent-format", "C20.E1 C20.E2 C20.E3 C20.E4 C20.E5",
-		"the closing delimiter of a formatted run abuts the opening delimiter of the next formatted run ('**a****b**', '`a``b`'): the delimiter runs fuse",
-		hasAdjacentFormatted},
-	{"KF-C20-underscore-intraword", "C20.E1 C20.E2 C20.E3 C20.E4 C20.E5",
-		"EmphasisMarker '_' next to a letter or digit of the neighbouring run ('x_a_y') is not emphasis in CommonMark",
-		hasIntrawordUnderscore},
-	{"KF-C20-code-combined", "C20.E1 C20.E2 C20.E3 C20.E4 C20.E5",
-		"a code-font run that is also bold/italic/strike gets its emphasis delimiters inside the code span ('`**x**`'): they become literal text",
-		hasCodeCombined},
-	{"KF-C20-nested-flanking", "C20.E1 C20.E2 C20.E3 C20.E4 C20.E5",
-		"a strike run that is also bold/italic is written '~~**x**~~'; next to a letter or digit of the neighbouring run the outer '~~' is not a delimiter run by the flanking rule and stays literal",
-		hasNestedFlanking},
-	{"KF-C20-list-no-blank", "C20.E1 C20.E2 C20.E4 C20.E5",
-		"a list item is not followed by a blank line: a following paragraph, table or setext heading is swallowed as a lazy continuation of the item",
-		hasListLazy},
-	{"KF-C20-simple-table", "C20.E1 C20.E2 C20.E3 C20.E4 C20.E5",
-		"with UseGFMTables off a table is written as '**a | b**' lines, which Markdown reads as one paragraph (text gains ' | ', block kind is lost)",
-		func(c Case) bool { return !c.O.GFM && hasKind(c, "table") }},
-	{"KF-C20-metadata", "C20.E4 C20.E5",
-		"the IncludeMetadata front matter is read back by the library's own converter as a thematic break and a heading 'title: \"Document\"'",
-		func(c Case) bool { return c.O.Meta }},
-	{"KF-C20-list-reimport", "C20.E4 C20.E5",
-		"round trip of a list item yields a normal paragraph with a literal bullet character prepended to its text",
-		func(c Case) bool { return hasKind(c, "li") }},
-	{"KF-C20-codeblock-newline", "C20.E5",
-		"round trip of a CodeBlock paragraph keeps the line terminator in the run text: the second export has an extra empty line inside the fence",
-		func(c Case) bool { return hasKind(c, "code") }},
-	{"KF-C20-empty-paragraph", "C20.E5",
-		"an empty paragraph is exported as a bare newline that does not survive the round trip: the second export is shorter",
-		hasEmptyParagraph},
-	{"KF-C20-table-header", "C20.E5",
-		"round trip makes the first table row bold: a table whose first row is not bold re-exports with '**' around its header cells",
-		hasPlainHeader},
-	{"KF-C20-nested-emphasis", "C20.E5",
-		"round trip keeps only the outermost of nested emphasis ('***x***', '~~**x**~~'): the second export has fewer delimiters",
-		hasMultiEmphasis},
-	{"KF-C20-heading-deep", "C20.E5",
-		"Heading7-9 are exported at level 6 and come back as Heading6, whose run formatting differs: the second export gains or loses emphasis delimiters",
-		func(c Case) bool {
-			for _, b := range c.Blocks {
-				if b.K == "h" && b.Level > 6 && !blank(b.T) {
-					return true
-				}
-			}
-			return false
-		}},
-	{"KF-C20-wrap-formatted", "C20.E4 C20.E5",
-		"WrapLongLines breaks lines inside a formatted run; on re-import the soft break inside emphasis/code is dropped and the words are glued",
-		hasWrappedFormatted},
+	{idOrder, "exporter: Write() emits all paragraphs and then all tables (writer.go:76-99 GetParagraphs, then GetTables) instead of walking Body.Elements: a table that precedes a later text block comes out after it (goldmark reading and re-imported body = body with the tables moved to the end)",
+		[]part{{"C20.E1 C20.E4", tableBeforeLaterBlock, true}}},
+	{idNoEscape, "exporter: formatRunText/extractCellText write run text without escaping (writer.go:333): text containing Markdown syntax ('a*b*c', '[a](b)', '&amp;', '<b>', '`', '|' in a cell, '#'/'-'/'1.' at a line start) is read as markup: text lost or invented, block kinds change",
+		[]part{{"C20.E1 C20.E2 C20.E3", hasSyntaxText, false}}},
+	{idEscapeRT, "round trip of text containing Markdown syntax: export -> ConvertString does not give the text back; today because the exporter does not escape (KF-C20-no-escape), and escaping alone cannot repair it because the importer copies backslash escapes and entities raw (KF-C19-escape-raw) and drops autolinks/inline HTML",
+		[]part{{"C20.E4 C20.E5", hasSyntaxText, false}}},
+	{idEdgeBlank, "exporter: emphasis delimiters are placed outside the blanks at the edges of a formatted run (or of a heading, whose runs carry the style's bold/italic): 'a** b **c' is not emphasis in CommonMark, the delimiters become text",
+		[]part{{allE, hasEdgeBlankFormatted, false}}},
+	{idDelimContext, "exporter: each run is wrapped in delimiters without regard to the neighbouring run: delimiters of touching formatted runs fuse ('**a****b**' reads 'a****b'), '_' italic next to a letter or digit ('x_a_y') and the outer '~~' of '~~**x**~~' next to a letter or digit are not delimiter runs by the flanking rules and stay literal",
+		[]part{{allE, hasDelimiterContext, false}}},
+	{idCodeCombined, "exporter: a code-font run that is also bold/italic/strike gets its emphasis delimiters inside the code span ('`**x**`', writer.go:341-359 wraps emphasis first, backticks last): they become literal text of the code span",
+		[]part{{"C20.E1 C20.E2 C20.E3 C20.E4", hasCodeCombined, false}}},
+	{idListNoBlank, "exporter: writeListItem ends an item with a single newline and nothing closes the list: a following paragraph, table or setext heading is swallowed as a lazy continuation line of the item ('- a\\nb' reads as one item 'a b')",
+		[]part{{"C20.E1 C20.E2 C20.E4 C20.E5", hasListLazy, false}}},
+	{idSimpleTable, "exporter: with UseGFMTables off a table is written as lines 'a | b' with '**' around the first (writeSimpleTable): Markdown reads one paragraph (cells glued with ' | ', table lost); already bold header cells give '****a** | **b****'",
+		[]part{{allE, func(c Case) bool { return !c.O.GFM && hasKind(c, "table") }, false}}},
+	{idMetadata, "IncludeMetadata writes a '---' front matter block that the library's own converter (no front matter support) reads back as a thematic break and a setext heading 'title: \"Document\"': the round trip gains a heading, the second export differs",
+		[]part{{"C20.E4 C20.E5", func(c Case) bool { return c.O.Meta }, true}}},
+	{idListReimport, "importer (renderer.go:261-268): a list item is converted to a normal paragraph with a literal '• ' prepended (no numbering properties): list items do not survive the round trip, the second export has '• a' paragraphs instead of '- a' items",
+		[]part{{"C20.E4 C20.E5", hasVisibleListItem, true}}},
+	{idCodeNewline, "importer (renderer.go:309-317, D56): each code line keeps its line terminator in the run text of the CodeBlock paragraph: the second export has an extra empty line before the closing fence",
+		[]part{{"C20.E5", hasVisibleCode, true}}},
+	{idEmptyPara, "exporter: a paragraph without visible text is written as a bare newline (writer.go:220-222), which Markdown cannot carry back: the second export lacks the extra blank lines",
+		[]part{{"C20.E5", hasEmptyParagraph, true}}},
+	{idTableHeader, "round trip makes the first table row bold (importer renderer.go:449 gives header cells emphasis 2, exporter writes bold header cells as '**a**'): a table whose first row is not bold re-exports with '**' around its header cells",
+		[]part{{"C20.E5", hasPlainHeader, true}}},
+	{idFlatten, "importer flattens the content of emphasis/strong/strike spans (KF-C19-nested-inline, renderer.go:173-211 extractTextContent): of '***x***' / '~~**x**~~' (and of '**`x`**' once the exporter nests code spans properly) only the outer flag survives (second export has fewer delimiters), and the soft line break that WrapLongLines puts inside a formatted run is dropped (words glued)",
+		[]part{{"C20.E5", hasNestedInline, true}, {"C20.E4 C20.E5", hasWrappedFormatted, false}}},
+	{idHeadingDeep, "Heading7-9 are exported at level 6 (Markdown has no deeper level) and come back as Heading6, whose style formatting (italic) differs from Heading7/Heading9 (none) and is exported as emphasis: the second export has '###### *x*' for '###### x'",
+		[]part{{"C20.E5", hasDeepHeading, true}}},
+}
+
+func kfByID(id string) *kf {
+	for i := range kfs {
+		if kfs[i].id == id {
+			return &kfs[i]
+		}
+	}
+	return nil
+}
+
+func hasClause(list, clause string) bool { return strings.Contains(" "+list+" ", " "+clause+" ") }
+
+const tagOpen = "[exactly the known effect of "
+
+// effectTag marks a failure detail as fully explained by the given findings (first = the one it is attributed to).
+func effectTag(ids []string) string { return tagOpen + strings.Join(ids, " + ") + "] " }
+
+func tagFirst(detail string) string {
+	if !strings.HasPrefix(detail, tagOpen) {
+		return ""
+	}
+	rest := detail[len(tagOpen):]
+	if i := strings.IndexAny(rest, " ]"); i >= 0 {
+		return rest[:i]
+	}
+	return ""
+}
+
+func (k kf) attributes(c Case, f kit.Failure) bool {
+	for _, p := range k.parts {
+		if !hasClause(p.clauses, f.Clause) || !p.pred(c) {
+			continue
+		}
+		// a failure that run() could explain exactly belongs to the finding named first in its tag, and to no class
+		if t := tagFirst(f.Detail); (p.exact && t == k.id) || (!p.exact && t == "") {
+			return true
+		}
+	}
+	return false
 }
 
 var findings = func() []kit.Finding[Case] {
@@ -81,25 +129,181 @@ var findings = func() []kit.Finding[Case] {
 	for _, k := range kfs {
 		k := k
 		out = append(out, kit.Finding[Case]{ID: k.id, Clause: "C20.E", Desc: k.desc,
-			Trigger: func(c Case, f kit.Failure) bool {
-				if !strings.Contains(" "+k.clauses+" ", " "+f.Clause+" ") {
-					return false
-				}
-				return k.pred(c)
-			}})
+			Trigger: func(c Case, f kit.Failure) bool { return k.attributes(c, f) }})
 	}
 	return out
 }()
 
-// triggered lists the finding classes the case falls into (whether or not the finding is open).
-func triggered(c Case) []string {
-	var out []string
+// triggered lists the finding classes the case falls into (whether or not the finding is open);
+// class = those with a class part, exact = those with an exact part only.
+func triggered(c Case) (class, exact []string) {
 	for _, k := range kfs {
-		if k.pred(c) {
-			out = append(out, k.id)
+		cl, ex := false, false
+		for _, p := range k.parts {
+			if p.pred(c) {
+				if p.exact {
+					ex = true
+				} else {
+					cl = true
+				}
+			}
+		}
+		if cl {
+			class = append(class, k.id)
+		} else if ex {
+			exact = append(exact, k.id)
 		}
 	}
+	return
+}
+
+var (
+	openOnce sync.Once
+	openIDs  map[string]bool
+)
+
+func isOpen(id string) bool {
+	openOnce.Do(func() { openIDs = kit.OpenFindings("C20") })
+	return openIDs[id]
+}
+
+// ---------------------------------------------------------------------------------------------
+// predicted effects of the exact findings
+
+type effect struct {
+	id     string
+	active func(c Case) bool
+	seq1   func(bs []Blk) []Blk           // E1: reference reading of the Markdown
+	seq4   func(bs []Blk) []Blk           // E4: re-imported body
+	norm5  func(c Case, md string) string // E5: applied to both exports
+	loose5 func(c Case) bool              // E5: the effect also moves line breaks (compare whitespace-insensitively)
+}
+
+var effects = []effect{
+	{id: idListReimport, active: hasVisibleListItem, seq4: bulletParagraphs, norm5: normBullets,
+		loose5: func(c Case) bool { return c.O.Wrap }}, // "• text" is a normal paragraph: it is wrapped, the item was not
+	{id: idOrder, active: tableBeforeLaterBlock, seq1: tablesLast, seq4: tablesLast},
+	{id: idMetadata, active: func(c Case) bool { return c.O.Meta }, norm5: normFrontMatter,
+		seq4: func(bs []Blk) []Blk { return append([]Blk{{Kind: "h", Level: 2, Text: `title: "Document"`}}, bs...) }},
+	{id: idCodeNewline, active: hasVisibleCode, norm5: func(_ Case, md string) string { return strings.ReplaceAll(md, "\n\n```\n\n", "\n```\n\n") }}, // closing fences only (an opening fence is followed by the code line)
+	{id: idEmptyPara, active: hasEmptyParagraph, norm5: func(_ Case, md string) string { return normBlankLines(md) }},
+	{id: idTableHeader, active: hasPlainHeader, norm5: func(_ Case, md string) string { return normHeaderRows(md) }},
+	{id: idFlatten, active: hasNestedInline, norm5: func(_ Case, md string) string { return stripChars(md, "*_~`") },
+		loose5: func(c Case) bool { return c.O.Wrap }}, // fewer delimiter bytes: lines break elsewhere
+	{id: idHeadingDeep, active: hasDeepHeading, norm5: func(_ Case, md string) string { return normDeepHeadings(md) }},
+}
+
+// explain looks for a smallest set of open, active effects under which `same` holds and returns its tag
+// ("" if there is none). Every subset is tried (an effect may be listed open and already be repaired).
+func explain(c Case, usable func(e effect) bool, same func(sel []effect) bool) string {
+	var cand []effect
+	for _, e := range effects {
+		if isOpen(e.id) && e.active(c) && usable(e) {
+			cand = append(cand, e)
+		}
+	}
+	n := len(cand)
+	for size := 1; size <= n; size++ {
+		for m := 1; m < 1<<n; m++ {
+			if bitsSet(m) != size {
+				continue
+			}
+			var sel []effect
+			var ids []string
+			for i, e := range cand {
+				if m&(1<<i) != 0 {
+					sel = append(sel, e)
+					ids = append(ids, e.id)
+				}
+			}
+			if same(sel) {
+				return effectTag(ids)
+			}
+		}
+	}
+	return ""
+}
+
+func tablesLast(bs []Blk) []Blk {
+	var text, tables []Blk
+	for _, b := range bs {
+		if b.Kind == "table" {
+			tables = append(tables, b)
+		} else {
+			text = append(text, b)
+		}
+	}
+	return append(text, tables...)
+}
+
+func bulletParagraphs(bs []Blk) []Blk {
+	out := make([]Blk, len(bs))
+	for i, b := range bs {
+		if b.Kind == "li" {
+			b = Blk{Kind: "p", Text: "• " + b.Text}
+		}
+		out[i] = b
+	}
 	return out
+}
+
+var (
+	reItemLine  = regexp.MustCompile(`(?m)^[-*+] (.*)$`)
+	reBlankRun  = regexp.MustCompile(`\n{3,}`)
+	reSeparator = regexp.MustCompile(`^\|(-----\|)+$`)
+)
+
+// normBullets: "- a" item lines become "• a" paragraphs (a paragraph ends with a blank line).
+func normBullets(_ Case, md string) string {
+	return normBlankLines(reItemLine.ReplaceAllString(md, "• $1\n"))
+}
+
+func normBlankLines(md string) string {
+	return reBlankRun.ReplaceAllString(strings.TrimLeft(md, "\n"), "\n\n")
+}
+
+// normFrontMatter removes the front matter block and, from a second export, what its re-import left behind:
+// the blank line of the thematic-break paragraph and the level-2 heading 'title: "Document"' (ATX or setext,
+// with the emphasis of the heading style).
+var reFrontHeading = regexp.MustCompile("^(## [*_]{0,3}title: \"Document\"[*_]{0,3}|[*_]{0,3}title: \"Document\"[*_]{0,3}\\n-+)\\n\\n")
+
+func normFrontMatter(_ Case, md string) string {
+	rest, ok := stripFrontMatter(md)
+	if !ok {
+		return md
+	}
+	return reFrontHeading.ReplaceAllString(strings.TrimLeft(rest, "\n"), "")
+}
+
+// normHeaderRows removes "**" from the row above a GFM separator row.
+func normHeaderRows(md string) string {
+	lines := strings.Split(md, "\n")
+	for i := 0; i+1 < len(lines); i++ {
+		if reSeparator.MatchString(lines[i+1]) && strings.HasPrefix(lines[i], "|") {
+			lines[i] = strings.ReplaceAll(lines[i], "**", "")
+		}
+	}
+	return strings.Join(lines, "\n")
+}
+
+// normDeepHeadings removes emphasis delimiters from level-6 ATX heading lines.
+func normDeepHeadings(md string) string {
+	lines := strings.Split(md, "\n")
+	for i, l := range lines {
+		if strings.HasPrefix(l, "###### ") {
+			lines[i] = stripChars(l, "*_")
+		}
+	}
+	return strings.Join(lines, "\n")
+}
+
+func stripChars(s, set string) string {
+	return strings.Map(func(r rune) rune {
+		if strings.ContainsRune(set, r) {
+			return -1
+		}
+		return r
+	}, s)
 }
 
 // ---------------------------------------------------------------------------------------------
@@ -115,6 +319,34 @@ func hasKind(c Case, k string) bool {
 }
 
 func visible(b Block) bool { return b.K == "table" || !blank(b.text()) }
+
+func hasVisibleListItem(c Case) bool {
+	for _, b := range c.Blocks {
+		if b.K == "li" && !blank(b.T) {
+			return true
+		}
+	}
+	return false
+}
+
+func hasVisibleCode(c Case) bool {
+	for _, b := range c.Blocks {
+		if b.K == "code" && !blank(b.T) {
+			return true
+		}
+	}
+	return false
+}
+
+// Heading7 and Heading9 carry no bold/italic in the default styles, Heading6 (what they come back as) is italic.
+func hasDeepHeading(c Case) bool {
+	for _, b := range c.Blocks {
+		if b.K == "h" && (b.Level == 7 || b.Level == 9) && !blank(b.T) {
+			return true
+		}
+	}
+	return false
+}
 
 // a table precedes a later block with visible text that is not a table
 func tableBeforeLaterBlock(c Case) bool {
@@ -222,73 +454,104 @@ func nonEmptyRuns(b Block) []Run {
 	return out
 }
 
-func hasAdjacentFormatted(c Case) bool {
-	for _, b := range c.Blocks {
-		if b.K != "p" {
-			continue
-		}
-		rs := nonEmptyRuns(b)
-		for i := 1; i < len(rs); i++ {
-			if rs[i-1].mask() != 0 && rs[i].mask() != 0 {
-				return true
-			}
-		}
-	}
-	return false
-}
-
 func wordChar(r rune) bool { return unicode.IsLetter(r) || unicode.IsDigit(r) || unicode.IsMark(r) }
 
-func hasIntrawordUnderscore(c Case) bool {
-	if c.O.Emph != "_" {
-		return false
+// fuse: the closing delimiter run of r1 and the opening delimiter run of r2 meet and are not read as written:
+// backtick runs and '~~' runs simply concatenate (code 'a' + code 'b' gives a double backtick in the middle, '~~a~~~~b~~'), and '**a****b**' / '*a**b*' fall under
+// CommonMark's multiple-of-3 rule. (Other touching combinations - '**a***b*', '***a******b***', '**a**~~b~~' -
+// parse as written; established by exhaustive enumeration of chains of up to 4 runs, see TestEnumChains.)
+func fuse(r1, r2 Run) bool {
+	if (r1.C && r2.C) || (r1.S && r2.S) {
+		return true
 	}
-	for _, b := range c.Blocks {
-		if b.K != "p" {
-			continue
-		}
-		rs := nonEmptyRuns(b)
-		for i, r := range rs {
-			if !r.I || r.B { // '_' is used for italic-only runs (also under strike / code)
-				continue
-			}
-			if i > 0 {
-				p := []rune(rs[i-1].T)
-				if !unicode.IsSpace(p[len(p)-1]) {
-					return true
-				}
-			}
-			if i+1 < len(rs) {
-				n := []rune(rs[i+1].T)
-				if !unicode.IsSpace(n[0]) {
-					return true
-				}
-			}
-		}
-	}
-	return false
+	// equal single emphasis on both sides; whether a code font run counts as well depends on where the exporter
+	// puts its backticks (outermost today, innermost with proposed_fixes/C20-code-inner.patch): both are covered
+	e1, e2 := r1.mask()&(mB|mI), r2.mask()&(mB|mI)
+	return !r1.S && !r2.S && e1 == e2 && (e1 == mB || e1 == mI)
 }
 
-func hasNestedFlanking(c Case) bool {
+// hasDelimiterContext: a formatted run whose delimiters are not read as delimiters because of what the
+// neighbouring run puts next to them:
+// (a) two touching formatted runs whose delimiter runs fuse, or three and more touching bold/italic runs (the
+//
+//	matching of several fused '*' runs is not pairwise: '**a*****b****c*' fails although both pairs parse),
+//
+// (b) an italic run written '_a_' touching a non-blank character of a plain neighbour (intraword underscore),
+// (c) a strike run that is also bold/italic ('~~**x**~~': '~~' followed by punctuation) touching a letter or digit,
+// (d) a code-font run that is also bold/italic/strike touching anything but a blank: today it is in the
+//
+//	code-combined class anyway; once the backticks are innermost ('**`x`**', proposed_fixes/C20-code-inner.patch)
+//	its outer delimiters are followed by punctuation and depend on the neighbour like (c),
+//
+// (e) an emphasised run whose own text begins or ends with punctuation: whether its delimiters are flanking then
+//
+//	depends on the neighbour ('**x.**y': the closing '**' is not right-flanking) and on the character itself
+//	('~~a \\~\\~~~'). Such text is in the no-escape class today whenever the punctuation is Markdown syntax; the
+//	case is listed here because it remains once text is escaped,
+//
+// (f) a formatted run touching punctuation of a plain neighbour ('\\~\\~~~a~~': an escaped '~' before the '~~'),
+// (g) a code-font run containing Markdown syntax (a backtick needs a longer fence; code span content cannot be
+//
+//	escaped, so wrapping can still move a '#' or a fence to a line start).
+//	(e)-(g) cost nothing today - all punctuation the generator knows is Markdown syntax, i.e. no-escape class -
+//	and keep the check quiet on the residue of proposed_fixes/C20-escape.patch.
+func hasDelimiterContext(c Case) bool {
 	for _, b := range c.Blocks {
 		if b.K != "p" {
 			continue
 		}
 		rs := nonEmptyRuns(b)
+		star := 0 // length of the current chain of touching runs whose outer delimiter is '*' or '_'
 		for i, r := range rs {
-			if !(r.S && (r.B || r.I)) {
+			if r.mask()&(mB|mI) == 0 || r.S {
+				star = 0
+			} else if star++; star >= 3 {
+				return true // (a)
+			}
+			if r.mask() == 0 {
 				continue
 			}
+			// the characters the run's own delimiters touch: blank at the paragraph edges, punctuation
+			// (a delimiter) where the neighbour is formatted, else the neighbour's edge character
+			var prev, next rune = ' ', ' '
 			if i > 0 {
-				p := []rune(rs[i-1].T)
-				if wordChar(p[len(p)-1]) {
-					return true
+				if rs[i-1].mask() != 0 {
+					if fuse(rs[i-1], r) {
+						return true // (a)
+					}
+					prev = '*'
+				} else {
+					p := []rune(rs[i-1].T)
+					prev = p[len(p)-1]
 				}
 			}
 			if i+1 < len(rs) {
-				if wordChar([]rune(rs[i+1].T)[0]) {
-					return true
+				if rs[i+1].mask() != 0 {
+					next = '*'
+				} else {
+					next = []rune(rs[i+1].T)[0]
 				}
+			}
+			plainTouch := func(x rune) bool { return x != '*' && !unicode.IsSpace(x) }
+			if c.O.Emph == "_" && r.I && !r.B && !r.S && (plainTouch(prev) || plainTouch(next)) {
+				return true // (b)
+			}
+			if r.S && (r.B || r.I) && (wordChar(prev) || wordChar(next)) {
+				return true // (c)
+			}
+			if r.C && (r.B || r.I || r.S) && (!unicode.IsSpace(prev) || !unicode.IsSpace(next)) {
+				return true // (d)
+			}
+			rt := []rune(r.T)
+			punct := func(x rune) bool { return !wordChar(x) && !unicode.IsSpace(x) }
+			if !r.C && (punct(rt[0]) || punct(rt[len(rt)-1])) {
+				return true // (e)
+			}
+			if (prev != '*' && punct(prev)) || (next != '*' && punct(next)) {
+				return true // (f)
+			}
+			if r.C && syntaxInline(r.T) {
+				return true // (g)
 			}
 		}
 	}
@@ -392,13 +655,15 @@ func hasPlainHeader(c Case) bool {
 	return false
 }
 
-func hasMultiEmphasis(c Case) bool {
+// a run with two or more of bold/italic/strike/code-font: written as nested spans
+// (a code span nested in emphasis only once the exporter puts the backticks innermost)
+func hasNestedInline(c Case) bool {
 	for _, b := range c.Blocks {
 		if b.K != "p" {
 			continue
 		}
 		for _, r := range b.Runs {
-			if r.T != "" && bitsSet(r.mask()&(mB|mI|mS)) >= 2 {
+			if r.T != "" && bitsSet(r.mask()) >= 2 {
 				return true
 			}
 		}
